@@ -43,6 +43,8 @@ type fwStruct struct {
 type fwRow struct{ ty, field, fn, kind string }
 
 type fwPkg struct {
+	decls   map[string]bool            // every function / method key declared in the package
+	calls   map[[2]string]map[string]bool // (helper, caller) -> receiver fields known empty at every such call
 	funcs   map[string]string // plain function -> struct its single result points to
 	structs map[string]*fwStruct
 	value   map[string]bool
@@ -279,6 +281,95 @@ func (e *fwEnv) record(fn string, lhs ast.Expr, kind string, guards []string) {
 	e.p.rows[fwRow{owner, f, fn, kind}] = true
 }
 
+func fwEmptyLit(x ast.Expr) bool {
+	t := src(x)
+	return t == "nil" || t == "``" || t == `""`
+}
+
+// fwTerminates: the block always leaves the function (ends in return or panic)
+func fwTerminates(b *ast.BlockStmt) bool {
+	if b == nil || len(b.List) == 0 {
+		return false
+	}
+	switch last := b.List[len(b.List)-1].(type) {
+	case *ast.ReturnStmt:
+		return true
+	case *ast.ExprStmt:
+		if ce, ok := last.X.(*ast.CallExpr); ok {
+			if id, ok := ce.Fun.(*ast.Ident); ok && id.Name == "panic" {
+				return true
+			}
+		}
+	}
+	return false
+}
+
+// noteCall records a call of an unexported function / method of the package (a helper): the enclosing function and the
+// fields of the call's receiver that are known to be empty at the call (`if x.f == nil { x.fill() }`)
+func (e *fwEnv) noteCall(fn string, ce *ast.CallExpr, guards []string) {
+	helper, recvSrc := "", ""
+	switch f := ce.Fun.(type) {
+	case *ast.Ident:
+		if e.p.decls[f.Name] && !exported(f.Name) {
+			helper = f.Name
+		}
+	case *ast.SelectorExpr:
+		if exported(f.Sel.Name) {
+			return
+		}
+		if t := e.typeOf(f.X); t != "" {
+			// the method may be declared on t or on a struct t embeds
+			for _, cand := range append([]string{t}, e.p.embedClosure(t)...) {
+				if e.p.decls[cand+"."+f.Sel.Name] {
+					helper, recvSrc = cand+"."+f.Sel.Name, src(f.X)
+					break
+				}
+			}
+		}
+	}
+	if helper == "" || helper == fn {
+		return
+	}
+	fields := map[string]bool{}
+	if recvSrc != "" {
+		for _, g := range guards {
+			if strings.HasPrefix(g, recvSrc+".") && !strings.Contains(g[len(recvSrc)+1:], ".") {
+				fields[g[len(recvSrc)+1:]] = true
+			}
+		}
+	}
+	k := [2]string{helper, fn}
+	if old, seen := e.p.calls[k]; seen {
+		for f := range old {
+			if !fields[f] {
+				delete(old, f) // guarded at every call site of this caller, or not counted
+			}
+		}
+	} else {
+		e.p.calls[k] = fields
+	}
+}
+
+func (p *fwPkg) embedClosure(t string) []string {
+	var out []string
+	seen := map[string]bool{t: true}
+	todo := []string{t}
+	for len(todo) > 0 {
+		x := todo[0]
+		todo = todo[1:]
+		if st := p.structs[x]; st != nil {
+			for _, em := range st.embedded {
+				if !seen[em] {
+					seen[em] = true
+					out = append(out, em)
+					todo = append(todo, em)
+				}
+			}
+		}
+	}
+	return out
+}
+
 var fwPackages = map[string]bool{}
 
 func fwIsPackageName(n string) bool { return fwPackages[n] }
@@ -305,8 +396,16 @@ func (e *fwEnv) walk(fn string, n ast.Node, guards []string) {
 	case nil:
 		return
 	case *ast.BlockStmt:
+		// a GUARD CLAUSE `if x.f != nil { …; return }` makes the rest of the block run under `x.f == nil`: the lazy fill
+		// written with an early return instead of a nested `if x.f == nil { … }`
+		g := guards
 		for _, st := range s.List {
-			e.walk(fn, st, guards)
+			e.walk(fn, st, g)
+			if is, ok := st.(*ast.IfStmt); ok && is.Else == nil && fwTerminates(is.Body) {
+				if be, ok := is.Cond.(*ast.BinaryExpr); ok && be.Op == token.NEQ && fwEmptyLit(be.Y) {
+					g = append(append([]string{}, g...), src(be.X))
+				}
+			}
 		}
 		return
 	case *ast.IfStmt:
@@ -315,7 +414,7 @@ func (e *fwEnv) walk(fn string, n ast.Node, guards []string) {
 		}
 		e.exprs(fn, s.Cond, guards)
 		g := guards
-		if be, ok := s.Cond.(*ast.BinaryExpr); ok && be.Op == token.EQL && (src(be.Y) == "nil" || src(be.Y) == "``" || src(be.Y) == `""`) {
+		if be, ok := s.Cond.(*ast.BinaryExpr); ok && be.Op == token.EQL && fwEmptyLit(be.Y) {
 			g = append(append([]string{}, guards...), src(be.X))
 		}
 		e.walk(fn, s.Body, g)
@@ -496,6 +595,7 @@ func (e *fwEnv) exprs(fn string, x ast.Expr, guards []string) {
 			sub.walk(fn, v.Body, guards)
 			return false
 		case *ast.CallExpr:
+			e.noteCall(fn, v, guards)
 			if id, ok := v.Fun.(*ast.Ident); ok && (id.Name == "copy" || id.Name == "delete") && len(v.Args) > 0 {
 				if sel, _, ok := e.target(v.Args[0]); ok {
 					e.record(fn, &ast.IndexExpr{X: sel}, ".elem", guards)
@@ -514,13 +614,13 @@ func (e *fwEnv) exprs(fn string, x ast.Expr, guards []string) {
 }
 
 // fwAnalyse: one package directory; struct names get `prefix` (empty for package types)
-func fwAnalyse(dir, prefix string) (rows []fwRow, values []string) {
+func fwAnalyse(dir, prefix string) (rows []fwRow, values []string, calls []fwCall) {
 	files, err := filepath.Glob(filepath.Join(*repo, dir, "*.go"))
 	if err != nil {
 		panic(err)
 	}
 	sort.Strings(files)
-	p := &fwPkg{funcs: map[string]string{}, structs: map[string]*fwStruct{}, value: map[string]bool{}, rows: map[fwRow]bool{}}
+	p := &fwPkg{decls: map[string]bool{}, calls: map[[2]string]map[string]bool{}, funcs: map[string]string{}, structs: map[string]*fwStruct{}, value: map[string]bool{}, rows: map[fwRow]bool{}}
 	var parsed []*ast.File
 	for _, abs := range files {
 		if strings.HasSuffix(abs, "_test.go") {
@@ -568,6 +668,7 @@ func fwAnalyse(dir, prefix string) (rows []fwRow, values []string) {
 					p.structs[ts.Name.Name] = fs
 				}
 			case *ast.FuncDecl:
+				p.decls[funcKey(d)] = true
 				if d.Name.Name == "PType" {
 					hasPType[recvTypeName(d)] = true
 				}
@@ -628,14 +729,30 @@ func fwAnalyse(dir, prefix string) (rows []fwRow, values []string) {
 	for name := range p.value {
 		values = append(values, prefix+name)
 	}
-	return rows, values
+	for k, fs := range p.calls {
+		var fl []string
+		for f := range fs {
+			fl = append(fl, f)
+		}
+		sort.Strings(fl)
+		calls = append(calls, fwCall{prefix + k[0], prefix + k[1], fl})
+	}
+	return rows, values, calls
+}
+
+// fwCall: a call of the unexported helper by the caller; guarded = fields of the call's receiver that are empty at every
+// such call site
+type fwCall struct {
+	helper, caller string
+	guarded        []string
 }
 
 func genFieldWrites() string {
-	rows, vals := fwAnalyse("types", "")
-	r2, v2 := fwAnalyse("internal", "internal.")
+	rows, vals, calls := fwAnalyse("types", "")
+	r2, v2, c2 := fwAnalyse("internal", "internal.")
 	rows = append(rows, r2...)
 	vals = append(vals, v2...)
+	calls = append(calls, c2...)
 	sort.Slice(rows, func(i, j int) bool {
 		a, b := rows[i], rows[j]
 		if a.ty != b.ty {
@@ -663,6 +780,24 @@ func genFieldWrites() string {
 		rl = append(rl, fmt.Sprintf("  ⟨%s, %s, %s, %s⟩", leanStr(r.ty), leanStr(r.field), leanStr(r.fn), r.kind))
 	}
 	fmt.Fprintf(&b, "def fieldWrites : List FieldWrite := [\n%s]\n", strings.Join(rl, ",\n"))
+	// the helpers that write: who calls them (one level), and which receiver fields are empty at the call
+	writers := map[string]bool{}
+	for _, r := range rows {
+		writers[r.fn] = true
+	}
+	var cl []string
+	for _, c := range calls {
+		if !writers[c.helper] {
+			continue
+		}
+		var gl []string
+		for _, g := range c.guarded {
+			gl = append(gl, leanStr(g))
+		}
+		cl = append(cl, fmt.Sprintf("  (%s, %s, [%s])", leanStr(c.helper), leanStr(c.caller), strings.Join(gl, ", ")))
+	}
+	sort.Strings(cl)
+	fmt.Fprintf(&b, "\n/-- calls of the unexported helpers that assign fields: (helper, caller, receiver fields known empty at every such call) -/\ndef helperCalls : List (String × String × List String) := [\n%s]\n", strings.Join(cl, ",\n"))
 	b.WriteString("\nend Pcore.Generated\n")
 	return b.String()
 }
